@@ -115,6 +115,22 @@ theorem bufioxDecNext_exact (r : Rd) (t : UInt8) (h : RdOK r) (hl : r.Live) :
     obtain ⟨r', h1, h2, h3, h4⟩ := hm
     exact ⟨r', h1, h2, h3, h4.1, h4.2 trivial⟩
 
+/-- … over C04's generalised live sources (`Rd.Live2`) -/
+theorem bufioxDecNext_exact2 (r : Rd) (t : UInt8) (h : RdOK r) (hl : r.Live2) :
+    match refTpl Facts.defaultRecursionDepth t r.remaining with
+    | some k => ∃ r', bufioxDecNext r t = .ok (r.remaining.take k, r') ∧
+        r'.remaining = r.remaining.drop k ∧ r'.readLen = r.readLen + k ∧ RdOK r' ∧ r'.Live2
+    | none => ∃ e, bufioxDecNext r t = .err e := by
+  have hsz : r.remaining.length + (r.remaining.length + tplReq) ≤ bigReq := by
+    have := h.2; unfold sizeBound at this; unfold tplReq bigReq; omega
+  have hm := bufioxDecNext_gen rdc_inst2 r t ⟨h, fun _ => hl⟩ hsz
+  cases hr : refTpl Facts.defaultRecursionDepth t r.remaining with
+  | none => rw [hr] at hm; exact hm
+  | some k =>
+    rw [hr] at hm
+    obtain ⟨r', h1, h2, h3, h4⟩ := hm
+    exact ⟨r', h1, h2, h3, h4.1, h4.2 trivial⟩
+
 /-- … over C04's reader with ANY source: sound and total -/
 theorem bufioxDecNext_any (r : Rd) (t : UInt8) (h : RdOK r) :
     (∃ e, bufioxDecNext r t = .err e) ∨
